@@ -39,7 +39,7 @@ def plan(prop, tier):
 def generate(prop, seed, tier):
     g = Stream(seed, 'gen')
     sem = g.choice(['real', 'real', 'log', 'viterbi', 'bool'])
-    rec = g.choice(['linear', 'any', 'any'])
+    rec = g.choice(['linear', 'linear-mutual', 'any', 'any'])
     menu = g.choice(['unit', 'unit', 'zeros', 'small']) if sem in ('viterbi', 'bool') else g.choice(['small', 'small', 'pos', 'zeros'])
     spec = G.gen_spec(g, recursion=rec, weights=menu, max_nodes=3, max_edges=3, max_dom=2 if rec == 'any' else 3,
                       explicit_ids=g.choice(['mixed', 'none']), shapes=g.random() < 0.5)
